@@ -30,7 +30,8 @@ class Tagging(D.AbstractDistribution):
         v = jnp.sum(self._coef(max(1, int(np.prod(self.shape))), 0.0) * jnp.ravel(x))
         if condition is not None and self.cond_shape is not None:
             v = v + 1000.0 * jnp.sum(self._coef(max(1, int(np.prod(self.cond_shape))), 0.7) * jnp.ravel(condition))
-        return v
+        # zero density on part of the space (x[0] < -1.5): -inf must come through every batched / unbatched path unchanged
+        return jnp.where(jnp.ravel(x)[0] < -1.5, -jnp.inf, v)
 
     def _sample(self, key, condition=None):
         n = max(1, int(np.prod(self.shape)))
@@ -53,6 +54,12 @@ def real_dist(kind, shape, cond, seed):
         f = coupling_flow if kind == "coupling" else masked_autoregressive_flow
         d = f(key, base_dist=D.StandardNormal(shape), cond_dim=cond[0], flow_layers=2, nn_width=4)
         return bd.perturb(d, 0.3, seed)
+    if kind == "bounded":  # bounded support, conditional: log_prob is -inf for part of the generated inputs
+        base = D.Uniform(-jnp.ones(shape) * 1.2, jnp.ones(shape) * 1.5)
+        node = bd.build_leaf({"k": "AdditiveCondition", "shape": list(shape), "cond": list(cond), "seed": seed, "module": "tensor"})
+        return D.Transformed(base, node.obj)
+    if kind == "lognormal":
+        return D.LogNormal(jnp.zeros(shape) + 0.2, jnp.ones(shape) * 0.7)
     if kind == "mixture":
         comp = eqx.filter_vmap(lambda m: D.Normal(m * jnp.ones(shape), 0.5 + jnp.ones(shape) * 0.1 * m))(jnp.arange(3.0))
         return D.VmapMixture(comp, jnp.asarray([1.0, 2.0, 3.0]))
@@ -85,12 +92,21 @@ def oracle(c, ctx):
     ic = np.broadcast_to(np.arange(int(np.prod(cb)) if cb else 1).reshape(cb), out_b)
     Xf = X.reshape((-1,) + shape)
     Cf = None if C is None else C.reshape((-1,) + cond)
+    from flowjax.wrappers import unwrap
+    udist = unwrap(dist)
     for idx in list(np.ndindex(out_b))[:24]:
         xi = Xf[ix[idx]]
         ci = None if Cf is None else jnp.asarray(Cf[ic[idx]])
         want = float(dist.log_prob(jnp.asarray(xi), ci))
         got = float(lp[idx])
-        if not (abs(got - want) <= 1e-11 * (1 + abs(want))):
+        core = float(udist._log_prob(jnp.asarray(xi), ci))  # the per-element definition (the documented extension point)
+        core = -np.inf if core != core else core  # log_prob documents nothing else about NaN than mapping it to -inf (C18)
+        if not (want == core or abs(want - core) <= 1e-11 * (1 + abs(core))):
+            raise Violation("C06|log_prob|unbatched_vs_definition", f"unbatched log_prob {want!r}, _log_prob of the unwrapped "
+                                                                    f"distribution {core!r} (x slice {ix[idx]}, condition slice {ic[idx]}); {spec}")
+        if np.isneginf(want) or np.isneginf(got):
+            ctx.hist("neg_inf_element", str(np.isneginf(want) and np.isneginf(got)))
+        if not (got == want or abs(got - want) <= 1e-11 * (1 + abs(want))):
             raise Violation("C06|log_prob|elementwise", f"element {idx}: batched {got!r} unbatched {want!r} "
                                                         f"(x slice {ix[idx]}, condition slice {ic[idx]}); {spec}")
     # ---------------- sample / sample_and_log_prob ----------------------------------------------------
@@ -112,7 +128,7 @@ def oracle(c, ctx):
     for j in list(range(nb))[:24]:
         ci = None if Cf is None else jnp.asarray(Cf[icb[j]])
         want = float(dist.log_prob(jnp.asarray(S3f[j]), ci))
-        if not (abs(float(L3f[j]) - want) <= 1e-9 * (1 + abs(want))):
+        if not (float(L3f[j]) == want or abs(float(L3f[j]) - want) <= 1e-9 * (1 + abs(want))):
             raise Violation("C06|sample_and_log_prob|logprob_of_sample", f"element {j}: returned {float(L3f[j])!r}, "
                                                                          f"log_prob(sample, condition slice) = {want!r}; {spec}")
     if kind == "tagging":
@@ -161,11 +177,11 @@ def bcast_pair(draw):
 
 @st.composite
 def cases(draw):
-    kind = draw(st.sampled_from(["tagging", "tagging", "tagging", "additive", "coupling", "maf", "mixture"]))
+    kind = draw(st.sampled_from(["tagging", "tagging", "tagging", "additive", "coupling", "maf", "mixture", "bounded", "lognormal"]))
     if kind == "tagging":
         shape = draw(st.sampled_from([(), (2,), (3,), (2, 2), (1,)]))
         cond = draw(st.sampled_from([None, (), (2,), (3,), (2, 3), (1,)]))
-    elif kind == "additive":
+    elif kind in ("additive", "bounded"):
         shape = draw(st.sampled_from([(), (3,), (2, 2)]))
         cond = draw(st.sampled_from([(), (2,), (2, 2)]))
     elif kind in ("coupling", "maf"):
